@@ -275,7 +275,7 @@ def rand_index(rng, shape, mode="get", chunks=None):
     from . import arrays as A
 
     if nd >= 1 and rng.random() < 0.08:
-        how = rng.choice(("np", "dask", "dask"))
+        how = rng.choice(("np", "dask", "dask")) if (mode == "get" or nd == 1) else "dask"
         e = {"k": "mask", "seed": rng.randrange(2 ** 31), "p": rng.choice((0.0, 0.3, 0.5, 0.5, 0.8, 1.1)), "as": how, "c": None}
         if how == "dask" and rng.random() < 0.6:
             e["c"] = [list(c) for c in A.rand_chunks(rng, shape)]
@@ -583,7 +583,7 @@ def tokens(enc, shape, chunks=None):
             name = {"list": "bool-list", "np": "bool-array", "dask": "dask-bool-array"}[e.get("as", "list")]
             out.add(name + ("[none-selected]" if len(e["v"]) and not any(e["v"]) else ""))
         elif k == "mask":
-            out.add("full-shape-dask-mask" if e.get("as") == "dask" else "full-shape-mask")
+            out.add(("full-shape-dask-mask[own-chunks]" if e.get("c") else "full-shape-dask-mask") if e.get("as") == "dask" else "full-shape-mask")
     return sorted(out)
 
 
@@ -644,6 +644,8 @@ def _entry_candidates(e, n):
             if len(set(v)) < len(v):
                 d = list(dict.fromkeys(v))
                 yield dict(e, v=d, c=[len(d)])
+            if len(v) >= 2 and v != [0, 1] and n >= 2:
+                yield dict(e, v=[0, 1], c=[2])
             if len(v) > 1:
                 yield dict(e, v=v[:1], c=[1])
                 yield dict(e, v=v[: len(v) // 2], c=[len(v) // 2])
